@@ -1,5 +1,5 @@
-"""Reference model for C20 (codec).  Plain Python over tree specs (see mc.univ);
-imports nothing from fibertree.
+"""Reference model for C20 (codec).  Plain Python over the codec's per-rank
+output arrays; imports nothing from fibertree.
 
 Layouts as documented in fibertree/codec/compression_types.py and the format
 classes:
@@ -15,21 +15,17 @@ Fibers of one rank are serialized in depth-first order."""
 import math
 
 
-def leaf_value(point, tag=1):
-    """mc.univ.mktree's position tag for a 'v' cell."""
-    v = tag
-    for c in point:
-        v = v * 10 + c + 1
-    return v
-
-
 def decode(out, ids, desc, dims):
-    """Independent decoder: per-rank coords_* / payloads_* arrays -> content
-    (dict point -> non-zero value).  Raises ValueError if an array is too short
-    for the layout."""
+    """Independent decoder: per-rank coords_* / payloads_* arrays ->
+    (content, ranks).  content is the dict point -> non-zero value; ranks[l]
+    lists the fibers of rank l in serialization order, each a dict with
+    `coords` (the coordinates the layout presents), `values` (leaf rank) or
+    `children` (positions of the child fibers in rank l+1).  Raises ValueError
+    if an array is too short for the layout."""
     D = len(ids)
     cc, cp = [0] * D, [0] * D
     res = {}
+    ranks = [[] for _ in range(D)]
 
     def take(arr, pos, d, n, what):
         seg = arr[pos[d]:pos[d] + n]
@@ -45,24 +41,31 @@ def decode(out, ids, desc, dims):
         if fmt == "U":
             coords = list(range(S))
         elif fmt == "C":
-            coords = take(ck, cc, d, count, "coords")
+            coords = list(take(ck, cc, d, count, "coords"))
         else:
             mask = take(ck, cc, d, S, "mask")
             coords = [i for i, b in enumerate(mask) if b]
             if len(coords) != count:
                 raise ValueError("rank %d: mask population %d, segment length %r" % (d, len(coords), count))
         n = len(coords)
+        ent = {"path": prefix, "coords": coords, "values": [], "children": []}
+        ranks[d].append(ent)
         if leaf:
-            for c, v in zip(coords, take(pk, cp, d, n, "payloads")):
+            ent["values"] = list(take(pk, cp, d, n, "payloads"))
+            for c, v in zip(coords, ent["values"]):
                 if v != 0:
                     res[prefix + (c,)] = v
         elif desc[d + 1] in "CB":
             prev = 0
             for c, o in zip(coords, take(pk, cp, d, n, "occupancies")):
+                if not isinstance(o, int) or o < prev:
+                    raise ValueError("rank %d: occupancies not cumulative" % d)
+                ent["children"].append(len(ranks[d + 1]))
                 rec(d + 1, prefix + (c,), o - prev)
                 prev = o
         else:
             for c in coords:
+                ent["children"].append(len(ranks[d + 1]))
                 rec(d + 1, prefix + (c,), None)
 
     count = None
@@ -71,65 +74,23 @@ def decode(out, ids, desc, dims):
             raise ValueError("payloads_root %r" % (out["payloads_root"],))
         count = out["payloads_root"][0]
     rec(0, (), count)
-    return res
+    return res, ranks
 
 
-class Model:
-    """What each encoded fiber consists of, from the tree spec alone.
-    ranks[l] lists the fibers of rank l in serialization order; each entry has
-    coords (presented coordinates), values (leaf) or children (positions in
-    rank l+1)."""
-
-    def __init__(self, tree, depth, dims, desc):
-        self.depth, self.dims, self.desc = depth, dims, desc
-        self.ranks = [[] for _ in range(depth)]
-        self._rec(tree, 0, ())
-
-    def _nonempty(self, node, l):
-        if node is None:
-            return False
-        if l == self.depth - 1:
-            return any(x != '-' for x in node)
-        return any(self._nonempty(x, l + 1) for x in node)
-
-    def _present(self, node, l):
-        if self.desc[l] == "U":
-            return list(range(self.dims[l]))
-        if node is None:
-            return []
-        if l == self.depth - 1:
-            return [i for i, x in enumerate(node) if x != '-']
-        return [i for i, x in enumerate(node) if self._nonempty(x, l + 1)]
-
-    def _rec(self, node, l, path):
-        ent = {"path": path, "coords": self._present(node, l), "children": [], "values": []}
-        self.ranks[l].append(ent)
-
-        def child(i):
-            return node[i] if node is not None and i < len(node) else None
-        if l < self.depth - 1:
-            for i in ent["coords"]:
-                ent["children"].append(len(self.ranks[l + 1]))
-                self._rec(child(i), l + 1, path + (i,))
-        else:
-            for i in ent["coords"]:
-                x = child(i)
-                ent["values"].append(leaf_value(path + (i,)) if x is not None and x != '-' else 0)
-
-    def size(self, ent, l):
-        """Words the fiber object stores, read literally from the property's
-        list: coordinates (or ceil(mask bits / 32) mask words) + occupancy
-        entries + payload entries.  Payload entries are leaf values or, for a
-        C / B fiber whose next rank needs explicit upper payloads, its child
-        handles; a U fiber holds its children by position (no payload entries)
-        and so does any fiber whose next rank is U."""
-        leaf = l == self.depth - 1
-        n, S = len(ent["coords"]), self.dims[l]
-        explicit_next = (not leaf) and self.desc[l + 1] in "CB"
-        occ = (S if self.desc[l] == "U" else n) if explicit_next else 0
-        if self.desc[l] == "U":
-            return occ + (S if leaf else 0)
-        pay = n if (leaf or explicit_next) else 0
-        if self.desc[l] == "C":
-            return n + occ + pay
-        return math.ceil(S / 32) + occ + pay
+def size(ent, l, desc, dims):
+    """Words the fiber object stores, read literally from the property's
+    list: coordinates (or ceil(mask bits / 32) mask words) + occupancy
+    entries + payload entries.  Payload entries are leaf values or, for a
+    C / B fiber whose next rank needs explicit upper payloads, its child
+    handles; a U fiber holds its children by position (no payload entries)
+    and so does any fiber whose next rank is U."""
+    leaf = l == len(desc) - 1
+    n, S = len(ent["coords"]), dims[l]
+    explicit_next = (not leaf) and desc[l + 1] in "CB"
+    occ = (S if desc[l] == "U" else n) if explicit_next else 0
+    if desc[l] == "U":
+        return occ + (S if leaf else 0)
+    pay = n if (leaf or explicit_next) else 0
+    if desc[l] == "C":
+        return n + occ + pay
+    return math.ceil(S / 32) + occ + pay
